@@ -183,7 +183,10 @@ class Eng:
     def __init__(self, rc):
         self.rc = rc
         self.fac = build_factory(rc)
-        self.engine = self.fac.create()
+        import contextlib
+        import io
+        with contextlib.redirect_stderr(io.StringIO()):      # ply reports unused precedence entries of custom tables
+            self.engine = self.fac.create()
         ops, self.idx, self.map, self.nvo = lexcfg.table_of(self.fac)
         self.ops = set(ops) | ({'[]'} if self.idx else set()) | ({'{}'} if self.map else set())
         self.type_of = {}
@@ -329,38 +332,46 @@ def escape_forms(c):
     return forms
 
 
-def gen_cases_codepoints(rng, tier, out, hist):
-    """every BMP code point + astral sample: raw alone / embedded in the three styles, every escape form"""
-    astral_n = 2000 if tier == 'quick' else 0
-    cps_ = [c for c in range(0x10000)]
-    if tier == 'quick':
-        cps_ += sorted(rng.sample(range(0x10000, 0x110000), astral_n)) + [0x10000, 0x10FFFF, 0x1F600, 0xE0001]
-    else:
-        cps_ += list(range(0x10000, 0x110000))
-    for c in cps_:
+def gen_cases_codepoints(rng, tier, lo, hi, out, hist):
+    """code points lo..hi-1: raw alone / embedded in the three styles, every escape form.
+    quick:    every BMP code point 'mid' (3 raw + 1 escape), c < 0x500 and every 61st 'full'; astral: a sample, 'full'
+    thorough: every BMP code point 'full'; every astral one 'light' (raw + \\U escape), every 16th 'full'"""
+    for c in range(lo, hi):
+        if c >= 0x10000:
+            if tier == 'quick':
+                if not (rng.random() < 0.002 or c in (0x10000, 0x10FFFF, 0x1F600, 0xE0001)):
+                    continue
+                level = 'full'
+            else:
+                level = 'full' if c % 16 == 0 else 'light'
+        elif tier == 'thorough' or c < 0x500 or c % 61 == 0:
+            level = 'full'
+        else:
+            level = 'mid'
+        full = level == 'full'
         surr = 0xD800 <= c <= 0xDFFF
         ch = chr(c)
-        full = tier == 'thorough' or c < 0x500 or c % 61 == 0 or (c >= 0x10000 and c % 4 == 0)
         if not surr:
-            for st in 'sdv':
+            for st in ('s' if level == 'light' else 'sdv'):
                 out.append(case_str(0, ch, st, 'cp-raw'))
             if full:
                 for st in 'sdv':
                     out.append(case_str(0, 'a' + ch + 'b', st, 'cp-embedded'))
-            try:
-                nm = unicodedata.name(ch)
-            except ValueError:
-                nm = None
-            if nm and (full or c % 5 == 0):
-                out.append(dict(fam='cp-name', eng=0, text="'\\N{%s}'" % nm, exp=('val', 'QUOTED_STRING', ch),
-                                model=True, src=dict(cp=c)))
-                hist['named'] = hist.get('named', 0) + 1
+            if full or (level == 'mid' and c % 5 == 0):
+                try:
+                    nm = unicodedata.name(ch)
+                except ValueError:
+                    nm = None
+                if nm:
+                    out.append(dict(fam='cp-name', eng=0, text="'\\N{%s}'" % nm, exp=('val', 'QUOTED_STRING', ch),
+                                    model=True, src=dict(cp=c)))
+                    hist['named'] = hist.get('named', 0) + 1
         elif c % 16 == 0 or tier == 'thorough':
             out.append(dict(fam='surr-raw', eng=0, text="'" + ch + "'", exp=('val', 'QUOTED_STRING', ch), model=False,
                             src=dict(cp=c)))
-        forms = escape_forms(c)
+        forms = list(dict.fromkeys(escape_forms(c)))
         if not full:
-            forms = [f for f in forms if f[1] == ('u' if c < 0x10000 else 'U') and f == f.lower()]
+            forms = [f for f in forms if f[1] == ('u' if c < 0x10000 else 'U') and f == f.lower()][:1]
         for f in forms:
             for st, q in (('s', "'"), ('d', '"')):
                 if not full and st == 'd':
@@ -679,16 +690,24 @@ def shrink_str(eng, case):
     return case
 
 
-def shrink_text(eng, case, pred):
+def shrink_text(eng, case, pred, budget=600):
+    """delta debugging on the text: delete chunks (halves, quarters, .. single characters) while `pred` still holds;
+    at most `budget` evaluations of `pred`"""
     text = case['text']
-    changed = True
-    while changed and len(text) > 1:
-        changed = False
-        for i in range(len(text)):
-            t = text[:i] + text[i + 1:]
-            if pred(t):
-                text, changed = t, True
-                break
+    calls = 0
+    size = max(1, len(text) // 2)
+    while size >= 1 and calls < budget and len(text) > 1:
+        i, progressed = 0, False
+        while i < len(text) and calls < budget:
+            t = text[:i] + text[i + size:]
+            calls += 1
+            if t and pred(t):
+                text, progressed = t, True
+            else:
+                i += size
+        if size == 1 and not progressed:
+            break
+        size = size // 2 if size > 1 else (1 if progressed else 0)
     c2 = dict(case)
     c2['text'] = text
     return c2
@@ -700,90 +719,80 @@ def replay_of(engs, case):
                 model=case['model'], text_repr=short(case['text']))
 
 
-def run(env, res):
-    drv, tier = env['driver'], env['tier']
-    rng = common.make_rng(env['seed'], 'C16')
-    limit = sys.get_int_max_str_digits()
-    hist = {}
-    res.rule = ('one case = one expression text lexed by the real ply lexer (and, for a literal, parsed and evaluated) and '
-                'by the Lean model; distinct = distinct (operator table, text); non-trivial = the text contains a quoted, '
-                'numeric or keyword literal, or makes the lexer stop. Families: every BMP code point and sampled astral '
-                'ones raw/embedded/in every escape shape in the three quote styles; biased random strings through the '
-                'spelling functions; raw escape look-alike contents; integers to 10^4000 and over the digit limit; '
-                'decimals; identifier-shaped words incl. Unicode; word(; token pairs and soups; token() at arbitrary offsets')
-    for b in lexcfg.check_hypotheses():
-        res.fail('mismatch', 'charcfg', 'CharCfg hypothesis does not hold for this interpreter: ' + b, dict(hyp=b))
+class Runner:
+    """processes cases batch by batch (the big sweeps never sit in memory as a whole)"""
 
-    if env['replay']:
-        rp = json.load(open(env['replay']))['case']
-        engs = [Eng(rp['engine'])]
-        exp = rp.get('exp')
-        if exp:
-            exp = tuple(exp)
-        cases = [dict(fam=rp['fam'], eng=0, text=lexcfg.uncps(rp['text']), exp=exp, model=rp.get('model', True),
-                      src=rp.get('src') or {}, call=rp.get('call'))]
-    else:
-        engs = make_engines(rng, 4 if tier == 'quick' else 40)
-        cases = []
-        n = 6000 if tier == 'quick' else 60000
-        gen_cases_codepoints(rng, tier, cases, hist)
-        gen_cases_strings(rng, engs, n, cases)
-        gen_cases_numbers(rng, 300 if tier == 'quick' else 3000, limit, cases)
-        gen_cases_words(rng, engs, 1500 if tier == 'quick' else 15000, cases)
-        gen_cases_soups(rng, engs, 20000 if tier == 'quick' else 200000, cases)
-    hist['engines'] = len(engs)
+    def __init__(self, env, res, engs, rng):
+        self.env, self.res, self.engs, self.rng = env, res, engs, rng
+        self.drv, self.tier = env['driver'], env['tier']
+        self.fam_hist, self.out_hist = {}, {}
+        self.known_seen = 0
+        self.diffs = 0
+        self.counter = 1 << 70
+        self.nx = []
+        self.nx_max = 6000 if self.tier == 'quick' else 60000
+        self.total = 0
 
-    # 1. the real code, the oracles
-    reals = []
-    known_seen = 0
-    fam_hist, out_hist = {}, {}
-    for i, c in enumerate(cases):
-        eng = engs[c['eng']]
-        real = lexcfg.real_lex(eng.engine, c['text'])
-        reals.append(real)
-        fam_hist[c['fam']] = fam_hist.get(c['fam'], 0) + 1
-        okind = 'ok' if 'ok' in real else ('lexical-error' if 'err' in real else 'foreign')
-        out_hist[okind] = out_hist.get(okind, 0) + 1
-        nontrivial = 'err' in real or any(t['k'] in ('QUOTED_STRING', 'NUMBER', 'KEYWORD_STRING', 'TRUE', 'FALSE', 'NULL', 'FUNC')
-                                          for t in real.get('ok', []))
-        res.case((c['eng'], c['text']) if len(c['text']) < 200 else common.digest((c['eng'], c['text'])), nontrivial,
-                 sample=dict(fam=c['fam'], text=short(c['text']), real=brief(real)[:200]) if i % 40000 == 7 else None)
-        msg = c03_oracle(c['text'], real)
-        if msg:
-            small = shrink_text(eng, c, lambda t: c03_oracle(t, lexcfg.real_lex(eng.engine, t)) is not None)
-            res.fail('oracle', 'lexer-total', '%s: text %s' % (c03_oracle(small['text'], lexcfg.real_lex(eng.engine, small['text'])),
-                                                               short(small['text'])),
-                     replay_of(engs, dict(small, exp=None)))
-            continue
-        msg = check_expectation(eng, c, real)
-        if msg:
-            key = classify_failure(c)
-            if key == 'verbatim-unspellable':
-                known_seen += 1
-                if known_seen > 1:
-                    continue
-            if 's' in c['src']:
-                c = shrink_str(eng, c)
-                msg = check_expectation(eng, c, lexcfg.real_lex(eng.engine, c['text']))
-            res.fail('oracle', key, '[%s] text %s: %s' % (c['fam'], short(c['text']), msg), replay_of(engs, c))
-        elif c['fam'] in ('str', 'cp-raw', 'cp-embedded') and c['src'].get('style') == 'v' \
-                and verbatim_unspellable(lexcfg.uncps(c['src']['s'])):
-            res.fail('mismatch', 'verbatim-theorem', 'theorem verbatim_spellable_iff says %s has no back-quoted spelling, '
-                     'but the real lexer reads %s back as it' % (short(lexcfg.uncps(c['src']['s'])), short(c['text'])),
-                     replay_of(engs, c))
-    hist['verbatim_unspellable_strings_seen'] = known_seen
-
-    # 2. the model
-    if drv is not None:
+    def process(self, cases, sweep=False):
+        res, engs, drv = self.res, self.engs, self.drv
+        reals = []
+        seen = set()
+        for c in cases:
+            eng = engs[c['eng']]
+            text = c['text']
+            real = lexcfg.real_lex(eng.engine, text)
+            reals.append(real)
+            self.total += 1
+            self.fam_hist[c['fam']] = self.fam_hist.get(c['fam'], 0) + 1
+            okind = 'ok' if 'ok' in real else ('lexical-error' if 'err' in real else 'foreign')
+            self.out_hist[okind] = self.out_hist.get(okind, 0) + 1
+            nontrivial = 'err' in real or any(
+                t['k'] in ('QUOTED_STRING', 'NUMBER', 'KEYWORD_STRING', 'TRUE', 'FALSE', 'NULL', 'FUNC') for t in real.get('ok', []))
+            if sweep:       # chunks of a sweep are disjoint: count distinct texts locally
+                key = (c['eng'], text)
+                if key in seen:
+                    sig, nontrivial = 0, False
+                else:
+                    seen.add(key)
+                    self.counter += 1
+                    sig = self.counter
+            else:
+                sig = hash((c['eng'], text))
+            res.case(sig, nontrivial,
+                     sample=dict(fam=c['fam'], text=short(text), real=brief(real)[:200]) if self.total % 40000 == 7 else None)
+            msg = c03_oracle(text, real)
+            if msg:
+                small = shrink_text(eng, c, lambda t: c03_oracle(t, lexcfg.real_lex(eng.engine, t)) is not None)
+                res.fail('oracle', 'lexer-total', '%s: text %s' % (
+                    c03_oracle(small['text'], lexcfg.real_lex(eng.engine, small['text'])), short(small['text'])),
+                    replay_of(engs, dict(small, exp=None, fam='soup', src={})))
+                continue
+            msg = check_expectation(eng, c, real)
+            if msg:
+                key = classify_failure(c)
+                if key == 'verbatim-unspellable':
+                    self.known_seen += 1
+                    if self.known_seen > 1:
+                        continue
+                if 's' in c['src']:
+                    c = shrink_str(eng, c)
+                    msg = check_expectation(eng, c, lexcfg.real_lex(eng.engine, c['text']))
+                res.fail('oracle', key, '[%s] text %s: %s' % (c['fam'], short(c['text']), msg), replay_of(engs, c))
+            elif c['exp'] is not None and c['fam'] in ('str', 'cp-raw', 'cp-embedded') and c['src'].get('style') == 'v' \
+                    and verbatim_unspellable(lexcfg.uncps(c['src']['s'])):
+                res.fail('mismatch', 'verbatim-theorem', 'theorem verbatim_spellable_iff says %s has no back-quoted '
+                         'spelling, but the real lexer reads %s back as it' % (
+                             short(lexcfg.uncps(c['src']['s'])), short(c['text'])), replay_of(engs, c))
+        if drv is None:
+            return
         models = model_batch(drv, engs, cases)
-        diffs = 0
         for i, c in enumerate(cases):
             if i not in models:
                 continue
             res.traces += 1
             msg = compare_model(c, reals[i], models[i])
-            if msg and diffs < 8:
-                diffs += 1
+            if msg and self.diffs < 8:
+                self.diffs += 1
                 eng = engs[c['eng']]
 
                 def still(t, eng=eng, c=c):
@@ -794,9 +803,9 @@ def run(env, res):
                                  texts=[lexcfg.cps(small['text'])]))['r'][0]
                 res.fail('mismatch', 'model-' + classify_failure(c), '[%s] text %s: %s' % (
                     c['fam'], short(small['text']), compare_model(c, lexcfg.real_lex(eng.engine, small['text']), m)),
-                    replay_of(engs, dict(small, exp=None)))
+                    replay_of(engs, dict(small, exp=None, fam='soup', src={})))
         # lexAll is the iteration of nextTok (theorem lexFrom_step), also on the compiled model
-        sample = [i for i in models if i % 9 == 0 and len(cases[i]['text']) < 500][:40000]
+        sample = [i for i in models if i % (9 if not sweep else 37) == 0 and len(cases[i]['text']) < 500]
         sub = [cases[i] for i in sample]
         it = model_batch(drv, engs, sub, op='iter')
         for k, i in enumerate(sample):
@@ -804,13 +813,16 @@ def run(env, res):
                 res.fail('mismatch', 'model-iter', 'lexAll and iterated nextTok differ on %s' % short(cases[i]['text']),
                          replay_of(engs, cases[i]))
                 break
-        # token() from arbitrary offsets (look-behind of \b)
-        nx = []
-        for i, c in enumerate(cases):
-            if c['fam'] in ('pair', 'soup', 'word') and c['model'] and 1 < len(c['text']) < 200:
+        for c in cases:
+            if len(self.nx) < self.nx_max and c['fam'] in ('pair', 'soup', 'word') and c['model'] and 1 < len(c['text']) < 200:
                 for _ in range(2):
-                    nx.append((c['eng'], c['text'], rng.randrange(0, len(c['text']) + 1)))
-        nx = nx[:6000 if tier == 'quick' else 100000]
+                    self.nx.append((c['eng'], c['text'], self.rng.randrange(0, len(c['text']) + 1)))
+
+    def next_offsets(self, nx):
+        """token() from arbitrary offsets (look-behind of \\b)"""
+        res, engs, drv = self.res, self.engs, self.drv
+        if drv is None:
+            return
         by_eng = {}
         for j, (ei, t, p) in enumerate(nx):
             by_eng.setdefault(ei, []).append(j)
@@ -822,7 +834,8 @@ def run(env, res):
                 _, t, p = nx[j]
                 real = lexcfg.real_next(engs[ei].engine, t, p)
                 res.traces += 1
-                fam_hist['next'] = fam_hist.get('next', 0) + 1
+                res.case(hash((ei, t, p)), True)
+                self.fam_hist['next'] = self.fam_hist.get('next', 0) + 1
                 bad = c03_oracle(t, real) if 'tok' not in real and 'eof' not in real else None
                 if bad:
                     res.fail('oracle', 'lexer-total', 'token() at offset %d of %s: %s' % (p, short(t), bad),
@@ -831,7 +844,57 @@ def run(env, res):
                     res.fail('mismatch', 'model-next', 'token() at offset %d of %s: real %s / model %s' % (
                         p, short(t), brief(real), brief(lexcfg.norm_model(m))),
                         dict(fam='next', engine=engs[ei].rc, text=lexcfg.cps(t), pos=p))
-    res.extra['histogram'] = dict(families=fam_hist, real_outcomes=out_hist, **hist)
+
+
+def run(env, res):
+    tier = env['tier']
+    rng = common.make_rng(env['seed'], 'C16')
+    limit = sys.get_int_max_str_digits()
+    hist = {}
+    res.rule = ('one case = one expression text lexed by the real ply lexer (and, for a literal, parsed and evaluated) and '
+                'by the Lean model; distinct = distinct (operator table, text); non-trivial = the text contains a quoted, '
+                'numeric or keyword literal, or makes the lexer stop. Families: every BMP code point and sampled (thorough: '
+                'all) astral ones raw/embedded/in every escape shape in the three quote styles; biased random strings '
+                'through the spelling functions; raw escape look-alike contents; integers to 10^4000 and over the digit '
+                'limit; decimals; identifier-shaped words incl. Unicode; word(; token pairs and soups; token() at arbitrary offsets')
+    for b in lexcfg.check_hypotheses():
+        res.fail('mismatch', 'charcfg', 'CharCfg hypothesis does not hold for this interpreter: ' + b, dict(hyp=b))
+
+    if env['replay']:
+        rp = json.load(open(env['replay']))['case']
+        engs = [Eng(rp['engine'])]
+        run_ = Runner(env, res, engs, rng)
+        if rp['fam'] == 'next':
+            run_.next_offsets([(0, lexcfg.uncps(rp['text']), rp['pos'])])
+        else:
+            exp = rp.get('exp')
+            if exp:
+                exp = tuple(exp)
+                if exp[0] == 'toks':
+                    exp = ('toks', exp[1])
+            run_.process([dict(fam=rp['fam'], eng=0, text=lexcfg.uncps(rp['text']), exp=exp, model=rp.get('model', True),
+                               src=rp.get('src') or {}, call=rp.get('call'))])
+    else:
+        engs = make_engines(rng, 4 if tier == 'quick' else 40)
+        run_ = Runner(env, res, engs, rng)
+        for lo in range(0, 0x110000, 0x1000):
+            cases = []
+            gen_cases_codepoints(rng, tier, lo, lo + 0x1000, cases, hist)
+            if cases:
+                run_.process(cases, sweep=True)
+        n = 6000 if tier == 'quick' else 60000
+        for gen in (lambda c: gen_cases_strings(rng, engs, n, c),
+                    lambda c: gen_cases_numbers(rng, 300 if tier == 'quick' else 3000, limit, c),
+                    lambda c: gen_cases_words(rng, engs, 1500 if tier == 'quick' else 15000, c),
+                    lambda c: gen_cases_soups(rng, engs, 20000 if tier == 'quick' else 200000, c)):
+            cases = []
+            gen(cases)
+            for k in range(0, len(cases), 50000):
+                run_.process(cases[k:k + 50000])
+        run_.next_offsets(run_.nx)
+    hist['engines'] = len(engs)
+    hist['verbatim_unspellable_strings_seen'] = run_.known_seen
+    res.extra['histogram'] = dict(families=run_.fam_hist, real_outcomes=run_.out_hist, **hist)
     res.extra['engines'] = [e.rc for e in engs][:8]
     res.extra['int_max_str_digits'] = limit
     return res
